@@ -35,6 +35,7 @@ from beartype._util.cls.utilclstest import is_type_subclass
 from beartype._util.error.utilerrwarn import issue_warning
 from beartype._util.kind.maplike.utilmapfrozen import FrozenDict
 from beartype._util.text.utiltextidentifier import is_identifier
+from beartype._util.utilobjtest import is_object_hashable
 from collections.abc import (
     Collection as CollectionABC,
 )
@@ -344,6 +345,16 @@ def sanify_conf_kwargs(conf_kwargs: DictStrToAny) -> None:
         parameters configuring this configuration.
     '''
     assert isinstance(conf_kwargs, dict), f'{repr(conf_kwargs)} not dictionary.'
+
+    # ..................{ DEFAULT ~ claw_skip_package_names  }..................
+    # If the collection of the names of all packages to be skipped is unhashable
+    # (e.g., a list or set), coerce this collection into a hashable tuple.
+    # Configurations are memoized on their parameters, which *MUST* thus all be
+    # hashable.
+    if not is_object_hashable(conf_kwargs['claw_skip_package_names']):
+        conf_kwargs['claw_skip_package_names'] = tuple(
+            conf_kwargs['claw_skip_package_names'])
+    # Else, this collection is already hashable.
 
     # ..................{ DEFAULT ~ hint_overrides           }..................
     # If enabling the PEP 484-compliant implicit numeric tower, dynamically
